@@ -619,7 +619,10 @@ impl SymbolTable {
 
         let mut cursor: Option<Cursor> = None;
         let mut label_map: HashMap<String, SymbolData> = HashMap::new();
-        let mut rel_map = HashMap::new();
+        // `.fill LABEL` statements seen so far: (address, label, span).
+        // Whether a label is external is only known once all statements have been seen,
+        // since an `.external` declaration may come after its uses.
+        let mut label_fills: Vec<(Option<u16>, String, Span)> = vec![];
         let mut debug_sym = src.map(|s| {
             let src_info = SourceInfo::new(s);
             (vec![None; src_info.count_lines()], src_info)
@@ -659,14 +662,8 @@ impl SymbolTable {
                     add_label(&mut label_map, label, 0, true)?;
                 }
                 StmtKind::Directive(Directive::Fill(PCOffset::Label(label))) => {
-                    let label_text = label.name.to_uppercase();
-                    if let Some(SymbolData { external: true, .. }) = label_map.get(&label_text) {
-                        let Some(cur) = cursor.as_ref() else {
-                            return Err(AsmErr::new(AsmErrKind::UndetAddrStmt, stmt.span.clone()));
-                        };
-
-                        rel_map.insert(cur.lc, label_text);
-                    }
+                    let lc = cursor.as_ref().map(|cur| cur.lc);
+                    label_fills.push((lc, label.name.to_uppercase(), stmt.span.clone()));
                 },
                 _ => {}
             };
@@ -693,6 +690,18 @@ impl SymbolTable {
 
         if let Some(cur) = cursor {
             return Err(AsmErr::new(AsmErrKind::UnclosedOrig, cur.block_orig));
+        }
+
+        // Relocation table: every `.fill` of a label that is declared external.
+        let mut rel_map = HashMap::new();
+        for (m_lc, label_text, span) in label_fills {
+            if let Some(SymbolData { external: true, .. }) = label_map.get(&label_text) {
+                let Some(lc) = m_lc else {
+                    return Err(AsmErr::new(AsmErrKind::UndetAddrStmt, span));
+                };
+
+                rel_map.insert(lc, label_text);
+            }
         }
         
         let debug_symbols = debug_sym.map(|(lines, src_info)| DebugSymbols {
@@ -1182,7 +1191,9 @@ impl ObjectFile {
             .collect();
         Ok(Self {
             block_map,
-            sym: debug.then_some(sym),
+            // Without debug symbols the symbol table is dropped, unless it declares externals:
+            // those must stay visible to the linker and to the simulator's loader.
+            sym: (debug || sym.label_map.values().any(|d| d.external)).then_some(sym),
         })
     }
 
